@@ -19,6 +19,10 @@ from vlib.gens import hx, dec
 GROUP = "trans"
 LEAN_PROPS = "Dashu.Props.C11"
 LEAN_AUDIT = "Dashu.Audit.C11"
+# the powi error bound builds on builder-float's C03 contracts (Dashu/Proofs/Float, imported read-only); it is kept
+# in a module of its own so that Props/C11 never depends on them
+GEN_PROPS = ["Dashu.Props.C11Powi"]
+GEN_AUDIT = ["Dashu.Audit.C11Powi"]
 JOBS = 14
 
 BASES = [2, 3, 10, 16, 36]
@@ -751,6 +755,11 @@ THEOREMS = [
     "Dashu.Props.C11.exact_flag_counterexample",
     "Dashu.Props.C11.large_argument_counterexample",
     "Dashu.Props.C11.directed_one_ulp_counterexample",
+    "Dashu.Props.C11Powi.powi_nonneg_error",
+    "Dashu.Props.C11Powi.powi_nonneg_half_lt_ulp",
+    "Dashu.Props.C11Powi.workPrec_eq",
+    "Dashu.Props.C11Powi.powi_model_reproduces",
+    "Dashu.Props.C11Powi.powi_directed_counterexample",
 ]
 
 REFINED = ["Context::exp_internal entry guards (assert_finite, assert_limited_precision, zero shortcut)",
@@ -795,4 +804,4 @@ LEVEL_NOTE = ("Trusted: Lean kernel; axioms propext/Classical.choice/Quot.sound;
               "exp_internal/ln_internal are not modelled - a result is only ever accepted through the certificate theorem.")
 TECHNIQUE = ("Lean 4 + Mathlib analysis (Real.exp_bound', hasSum_log_sub_log_of_abs_lt_one): verified interval enclosures; "
              "a-posteriori certification of the implementation's results; differential run of the guard model")
-READY = False  # orchestrator: pending driver fix (INTERNAL bad-op on seed 1)
+READY = True
